@@ -23,6 +23,9 @@ def dur(sign, keys):
 
 
 def drive(ctx):
+    from .. import gr
+
+    gr.replay(ctx)          # behaviours of the Session state machine, real objects threaded
     q = ctx.quick()
     rnd = ctx.rnd
     full = ctx.backend == "rs" or not q
